@@ -121,6 +121,19 @@ where
     })
   }
 
+  /// A handle that feeds the same history and observers but carries no hooks (see
+  /// `Subject::sink`).
+  pub(crate) fn sink(&self) -> ReplaySubject<'a, Item> {
+    ReplaySubject {
+      subject: Arc::new(self.subject.sink()),
+      items: Arc::clone(&self.items),
+      was_error: Arc::clone(&self.was_error),
+      was_completed: Arc::clone(&self.was_completed),
+      on_subscribe: Arc::new(RwLock::new(None)),
+      subscribed_count: Arc::new(RwLock::new(None)),
+    }
+  }
+
   pub(crate) fn set_on_subscribe<F>(&self, f: F)
   where
     F: Fn(usize) + Send + Sync + 'a,
